@@ -17,12 +17,12 @@ Open Scope Z_scope.
    that changes a size. *)
 Theorem C08_final :
   forall its consts0 labels0 compress r,
-    assemble_items its consts0 labels0 compress = Done r -> nonneg its -> NoDup (gnames its) ->
+    assemble_items its consts0 labels0 compress = Done r -> nonneg its ->
     exists al fin, Forall2 same1 al fin /\ blobbed fin (r_chunks r) /\ exact fin (r_labels r) /\
                    pF2 (Rval (r_consts r) (r_labels r)) 0 al fin.
 Proof.
-  intros its c0 l0 cmp r H Hn Hd.
-  destruct (pipeline_layout its c0 l0 cmp r H Hn Hd) as (pa & al & fin & _ & _ & _ & S & B & X & _ & V).
+  intros its c0 l0 cmp r H Hn.
+  destruct (pipeline_layout its c0 l0 cmp r H Hn) as [(pa & al & fin & _ & _ & _ & S & B & X & _ & V) _].
   exists al, fin. auto.
 Qed.
 Print Assumptions C08_final.
